@@ -43,6 +43,7 @@ structure DState where
   serCfg : Ser.Cfg := { names := [], env := [], envNames := [], hidden := [], rewrites := [] }
   packCfg : Pack.Cfg := { mode := .forward, maxBytes := 0, maxRecords := 0, tag := [] }
   pack : Pack.St := {}
+  cfgSchema : Cfg.Schema := { names := [] }
   xprog : List Xform.Step := []
   xstate : Xform.XState := []
   routeParts : List Route.Part := []
@@ -286,6 +287,24 @@ def handleXform (st : DState) : List String → DState × String
     | _, _ => (st, "bad-op")
   | _ => (st, "bad-op")
 
+def handleCfg (st : DState) : List String → DState × String
+  | "schema" :: hs =>
+    match unhexAll hs with
+    | some names => ({ st with cfgSchema := { names := names } }, "ok")
+    | none => (st, "bad-op")
+  | "file" :: _ => (st, "any")
+  | "verify" :: toks =>
+    match Drv.parseCfg toks with
+    | none => (st, "bad-op")
+    | some cfg =>
+      if Cfg.verifySteps st.cfgSchema cfg then
+        -- construction must succeed for accepted configurations (C16_verify_sound); report what the model does
+        match Cfg.constructSteps st.cfgSchema 0 cfg with
+        | .ok _ => (st, "accept")
+        | .error p => (st, s!"accept-but-construct-panics {p.name}")
+      else (st, "reject")
+  | _ => (st, "bad-op")
+
 def handle (st : DState) (line : String) : DState × String :=
   match fields line with
   | "time" :: rest => (st, handleTime rest)
@@ -295,6 +314,7 @@ def handle (st : DState) (line : String) : DState × String :=
   | "ser" :: rest => handleSer st rest
   | "pack" :: rest => handlePack st rest
   | "xform" :: rest => handleXform st rest
+  | "cfg" :: rest => handleCfg st rest
   | ["redact", h] =>
     match unhex h with
     | none => (st, "bad-op")
